@@ -943,6 +943,7 @@ package ctfe
 //@ ensures [a-log-that-accepts-submissions-needs-trusted-roots] !cfg.IsMirror && len(cfg.RootsPemFile) == 0 ==> result1 != nil
 //@ ensures [private-key-must-load] ns.called && ns.res1 != nil ==> result1 != nil
 //@ ensures [configured-public-key-must-match-the-private-key] result1 == nil && !cfg.IsMirror && V.PubKey != nil ==> (typeof(V.PubKey) == *ecdsa.PublicKey && eqe.called && eqe.res) || (typeof(V.PubKey) == ed25519.PublicKey && eqd.called && eqd.res) || (typeof(V.PubKey) == *rsa.PublicKey && eqr.called && eqr.res)
+//@ ensures [the-instance-carries-the-options-it-was-set-up-from] result1 == nil ==> result0 != nil && result0.instanceOpts == opts
 //@ ensures [instance-is-built-by-newloginfo] result1 == nil ==> (n1.called && result0 == n1.res) || (n2.called && result0 == n2.res)
 //@ at n1 assert [options-and-signer-passed-on] n1.instanceOpts == opts && (cfg.IsMirror ==> n1.signer == nil) && (!cfg.IsMirror ==> n1.signer == ns.res0)
 //@ at n1 assert [chain-validation-is-wired-from-the-validated-config] n1.validationOpts.rejectExpired == cfg.RejectExpired && n1.validationOpts.rejectUnexpired == cfg.RejectUnexpired && n1.validationOpts.notAfterStart == V.NotAfterStart && n1.validationOpts.notAfterLimit == V.NotAfterLimit && n1.validationOpts.acceptOnlyCA == cfg.AcceptOnlyCa && n1.validationOpts.extKeyUsages == V.KeyUsages && n1.validationOpts.rejectExtIds == po.res0 && n1.validationOpts.trustedRoots != nil
@@ -1013,3 +1014,17 @@ package ctfe
 //@ ensures [the-logs-given-in-order] result.LogConfigs != nil && result.LogConfigs.Config == cfg
 //@ ensures [every-log-refers-to-that-backend] forall j int :: 0 <= j && j < len(cfg) ==> cfg[j].LogBackendName == "default"
 //@ ensures [nothing-else-about-a-log-changes] forall j int :: 0 <= j && j < len(cfg) ==> cfg[j].LogId == old(cfg[j].LogId) && cfg[j].Prefix == old(cfg[j].Prefix) && cfg[j].IsMirror == old(cfg[j].IsMirror) && cfg[j].IsReadonly == old(cfg[j].IsReadonly)
+
+// C15 "An instance built from an accepted configuration exposes ...": the public constructor hands
+// out exactly the handler set of the log it set up, registered under the configured prefix, and the
+// STH getter of that same log (the frozen / mirror / signing getter newLogInfo selected).
+//@ func SetUpInstance
+//@ props C15
+//@ site setUpLogInfo#1 as su
+//@ site Handlers#1 as h
+//@ requires opts.Validated != nil && opts.Validated.Config != nil && ctx != nil
+//@ fresh result0
+//@ ensures [set-up-failure-is-the-callers-failure] su.res1 != nil ==> result0 == nil && result1 == su.res1 && !h.called
+//@ ensures [handlers-and-sth-getter-of-the-log-that-was-set-up] su.res1 == nil ==> result1 == nil && result0 != nil && h.called && result0.Handlers == h.res && result0.STHGetter == after(su, su.res0.sthGetter) && result0.li == su.res0
+//@ at su assert [set-up-from-the-callers-options] su.opts == opts
+//@ at h assert [handlers-of-that-log-under-the-configured-prefix] h.li == su.res0 && h.prefix == opts.Validated.Config.Prefix
